@@ -49,6 +49,9 @@ OFF0 = [None, 'qcow2', 'qed', 'vhd', 'vhdx', 'vmdk', 'luks', 'qcow2v1', 'qcow2v0
 DECISION = {'qcow2': 512, 'qed': 512, 'vhd': 512, 'vhdx': 262144, 'vmdk': 64,
             'luks': 592, 'vdi': 512, 'gpt': 512, 'iso': 34816}
 BIG = 300 * 1024
+# where each format's fixed signature sits: (offset, length)
+SIG_AT = {'qcow2': (0, 4), 'qed': (0, 4), 'vhd': (0, 8), 'vhdx': (0, 8), 'vmdk': (0, 4),
+          'luks': (0, 6), 'vdi': (0x40, 4), 'gpt': (510, 2), 'iso': (32769, 5)}
 _CONTENTS = []
 
 
@@ -219,6 +222,25 @@ def recipes(ctx):
     for il in (0, 4, 16, 65536):
         extra.append(B.vhdx(item_length=il, tail=4096).data)
     extra.append(B.gpt_disk().data)
+    # signature near-misses: a clean image of each format with ONE byte of its signature
+    # altered (low bit, letter case, high bit, zeroed) - nothing may still be named that format
+    done = set()
+    for w in F.wellformed(ctx.seed, False):
+        if w.fmt not in SIG_AT or w.fmt in done:
+            continue
+        off, n = SIG_AT[w.fmt]
+        if w.fmt == 'vmdk' and w.data[:4] != b'KDMV':
+            continue
+        if len(w.data) < off + n:
+            continue
+        done.add(w.fmt)
+        for k in range(n):
+            alts = [w.data[off + k] ^ 0x01, w.data[off + k] ^ 0x20]
+            if ctx.thorough:
+                alts += [w.data[off + k] ^ 0x80, 0x00, 0xff]
+            for v in alts:
+                if v != w.data[off + k]:
+                    extra.append(w.data[:off + k] + bytes([v]) + w.data[off + k + 1:])
     seen = set()
     for i, d in enumerate(extra):
         if d in seen:
